@@ -105,16 +105,17 @@ theorem intVal_digits (a : List Nat) (ha : Syntax.allDigits a = true) :
 theorem intVal_neg (a : List Nat) : Syntax.intVal (45 :: a) = - Int.ofNat (Syntax.digitsVal a 0) := by
   simp [Syntax.intVal, Syntax.stripSign]
 
-/-- a decimal token through `next_token` + `parse_from_token` -/
+/-- a decimal token through `next_token` + `parse_from_token`: an integer token inside `i64` is an
+    integer, any other decimal token (fraction part, or digits outside `i64`) a real carrying it -/
 theorem lib_dectok (f : Nat) (tok rest : List Nat) (hdec : IsDecTok tok = true)
     (hr : libEnds rest = true)
     (hint : Syntax.isIntTok tok = true →
-      inI64 (Syntax.intVal tok) = true ∧
         (!(0 ≤ Syntax.intVal tok && Syntax.intVal tok ≤ 4294967295) || libIntFollowOk rest) = true) :
     ∃ t r1, Lexer.next (tok ++ rest) = .ok (t, r1) ∧ (t == Token.arrayEnd) = false ∧
       t.isComment = false ∧
       ObjParser.parseFromToken (f + 1) t r1 =
-        .ok (if Syntax.isIntTok tok then Obj.int (Syntax.intVal tok) else Obj.real tok, rest) := by
+        .ok (if Syntax.isIntTok tok && inI64 (Syntax.intVal tok) then Obj.int (Syntax.intVal tok)
+             else Obj.real tok, rest) := by
   obtain ⟨_, b, r, hbr, hb⟩ := IsDecTok_regular tok hdec
   have hnext : Lexer.next (tok ++ rest) = Lexer.readNumber (tok ++ rest) := by
     rw [hbr]; exact lib_next_number b _ hb
@@ -126,24 +127,36 @@ theorem lib_dectok (f : Nat) (tok rest : List Nat) (hdec : IsDecTok tok = true)
       cases neg with
       | false => simp [Syntax.isIntTok, stripSign_digits a ha, ha, hane]
       | true => simp [Syntax.isIntTok, Syntax.stripSign, ha, hane]
-    obtain ⟨hfit, hfollow⟩ := hint hit
+    have hfollow := hint hit
     have hiv : Syntax.intVal tok =
         (if neg then - Int.ofNat (Syntax.digitsVal a 0) else Int.ofNat (Syntax.digitsVal a 0)) := by
       subst ht
       cases neg with
       | false => simpa using intVal_digits a ha
       | true => simpa using intVal_neg a
-    have hfit' : if neg then Syntax.digitsVal a 0 ≤ 9223372036854775808
-        else Syntax.digitsVal a 0 ≤ 9223372036854775807 := by
-      rw [hiv] at hfit
-      cases neg with
-      | false => simp [inI64] at hfit ⊢; omega
-      | true => simp [inI64] at hfit ⊢; omega
-    have hrn := lib_readNumber_int neg a rest ha hane hr hfit'
-    rw [← ht, ← hiv] at hrn
-    refine ⟨.int (Syntax.intVal tok), rest, by rw [hnext, hrn], rfl, rfl, ?_⟩
-    rw [lib_pft_int f _ rest hfollow]
-    simp [hit]
+    by_cases hfit : inI64 (Syntax.intVal tok) = true
+    · have hfit' : if neg then Syntax.digitsVal a 0 ≤ 9223372036854775808
+          else Syntax.digitsVal a 0 ≤ 9223372036854775807 := by
+        rw [hiv] at hfit
+        cases neg with
+        | false => simp [inI64] at hfit ⊢; omega
+        | true => simp [inI64] at hfit ⊢; omega
+      have hrn := lib_readNumber_int neg a rest ha hane hr hfit'
+      rw [← ht, ← hiv] at hrn
+      refine ⟨.int (Syntax.intVal tok), rest, by rw [hnext, hrn], rfl, rfl, ?_⟩
+      rw [lib_pft_int f _ rest hfollow]
+      simp [hit, hfit]
+    · have hbig : if neg then 9223372036854775808 < Syntax.digitsVal a 0
+          else 9223372036854775807 < Syntax.digitsVal a 0 := by
+        rw [hiv] at hfit
+        cases neg with
+        | false => simp [inI64] at hfit ⊢; omega
+        | true => simp [inI64] at hfit ⊢; omega
+      have hrn := lib_readNumber_int_big neg a rest ha hane hr hbig
+      rw [← ht] at hrn
+      refine ⟨.real tok, rest, by rw [hnext, hrn], rfl, rfl, ?_⟩
+      rw [ObjParser.parseFromToken]
+      simp [hfit]
   · have hrn := lib_readNumber_frac neg a fr rest ha hane hf hr
     rw [← ht] at hrn
     have hni : Syntax.isIntTok tok = false := by
@@ -226,7 +239,7 @@ mutual
 theorem lib_first_roundtrip : ∀ (v : Obj) (rest : List Nat) (fuel : Nat),
     SafeLib v rest = true → needFT v ≤ fuel →
     ∃ t r1, Lexer.next (serRaw v ++ rest) = .ok (t, r1) ∧ (t == Token.arrayEnd) = false ∧
-      t.isComment = false ∧ ObjParser.parseFromToken fuel t r1 = .ok (readBack v, rest)
+      t.isComment = false ∧ ObjParser.parseFromToken fuel t r1 = .ok (readBackLib v, rest)
   | .null, rest, fuel, hs, hf => by
     obtain ⟨f, rfl⟩ : ∃ f, fuel = f + 1 := ⟨fuel - 1, by simp [needFT] at hf; omega⟩
     exact ⟨.null, rest, lib_next_null rest (by simpa [SafeLib] using hs), rfl, rfl,
@@ -242,9 +255,9 @@ theorem lib_first_roundtrip : ∀ (v : Obj) (rest : List Nat) (fuel : Nat),
     simp only [SafeLib, Bool.and_eq_true] at hs
     obtain ⟨hdec, hit, hiv⟩ := showInt_isDecTok i
     have := lib_dectok f (showInt i) rest hdec hs.1.2 (by
-      intro _; rw [hiv]; exact ⟨hs.1.1, hs.2⟩)
-    rw [hit, hiv] at this
-    simpa [serRaw, readBack] using this
+      intro _; rw [hiv]; exact hs.2)
+    rw [hit, hiv, hs.1.1] at this
+    simpa [serRaw, readBackLib] using this
   | .real t, rest, fuel, hs, hf => by
     obtain ⟨f, rfl⟩ : ∃ f, fuel = f + 1 := ⟨fuel - 1, by simp [needFT] at hf; omega⟩
     simp only [SafeLib, Bool.and_eq_true] at hs
@@ -253,7 +266,7 @@ theorem lib_first_roundtrip : ∀ (v : Obj) (rest : List Nat) (fuel : Nat),
       have h2 := hs.2
       rw [if_pos hit] at h2
       simpa using h2)
-    simpa [serRaw, readBack, readBackReal] using this
+    simpa [serRaw, readBackLib, readBackRealLib] using this
   | .str s, rest, fuel, _, hf => by
     obtain ⟨f, rfl⟩ : ∃ f, fuel = f + 1 := ⟨fuel - 1, by simp [needFT] at hf; omega⟩
     exact ⟨.str s, rest, lib_next_str s rest, rfl, rfl, by rw [ObjParser.parseFromToken]; rfl⟩
@@ -292,7 +305,7 @@ theorem lib_first_roundtrip : ∀ (v : Obj) (rest : List Nat) (fuel : Nat),
     · have e : serRaw (.arr xs) ++ rest = 91 :: (serElems true xs ++ 93 :: rest) := by simp [serRaw]
       rw [e, lib_next_lbracket]
     · rw [ObjParser.parseFromToken]
-      simp [this, readBack]
+      simp [this, readBackLib]
   | .dict kvs, rest, fuel, hs, hf => by
     obtain ⟨f, rfl⟩ : ∃ f, fuel = f + 1 := ⟨fuel - 1, by simp [needFT] at hf; omega⟩
     simp only [SafeLib, Bool.and_eq_true] at hs
@@ -304,15 +317,15 @@ theorem lib_first_roundtrip : ∀ (v : Obj) (rest : List Nat) (fuel : Nat),
         simp [serRaw]
       rw [e, lib_next_dictStart]
     · rw [ObjParser.parseFromToken]
-      simp [this, lib_afterDict f' rest hs.2, readBack]
+      simp [this, lib_afterDict f' rest hs.2, readBackLib]
 
 theorem lib_elems_roundtrip : ∀ (xs : List Obj) (first : Bool) (rest : List Nat) (fuel : Nat),
     SafeLibElems first xs (93 :: rest) = true → needArr xs ≤ fuel →
-    ObjParser.parseArray fuel (serElems first xs ++ 93 :: rest) = .ok (readBackList xs, rest)
+    ObjParser.parseArray fuel (serElems first xs ++ 93 :: rest) = .ok (readBackLibList xs, rest)
   | [], first, rest, fuel, _, hf => by
     obtain ⟨f, rfl⟩ : ∃ f, fuel = f + 1 := ⟨fuel - 1, by simp [needArr] at hf; omega⟩
     rw [ObjParser.parseArray]
-    simp [serElems, lib_next_rbracket, readBackList]
+    simp [serElems, lib_next_rbracket, readBackLibList]
   | x :: xs, first, rest, fuel, hs, hf => by
     obtain ⟨f, rfl⟩ : ∃ f, fuel = f + 1 := ⟨fuel - 1, by simp [needArr] at hf; omega⟩
     simp only [SafeLibElems, Bool.and_eq_true] at hs
@@ -329,16 +342,16 @@ theorem lib_elems_roundtrip : ∀ (xs : List Obj) (first : Bool) (rest : List Na
             = 32 :: (serRaw x ++ (serElems false xs ++ 93 :: rest)) := by simp [serElems]
         rw [this, lib_next_ws 32 _ (by decide)]; exact hn
     rw [ObjParser.parseArray, hn']
-    simp [hne, hnc, hp, ihl, readBackList]
+    simp [hne, hnc, hp, ihl, readBackLibList]
 
 theorem lib_entries_roundtrip : ∀ (kvs : List (List Nat × Obj)) (rest : List Nat) (fuel : Nat),
     SafeLibEntries kvs (10 :: 62 :: 62 :: rest) = true → needDict kvs ≤ fuel →
     ObjParser.parseDictInner fuel (serEntries kvs ++ 10 :: 62 :: 62 :: rest)
-      = .ok (readBackKVs kvs, rest)
+      = .ok (readBackLibKVs kvs, rest)
   | [], rest, fuel, _, hf => by
     obtain ⟨f, rfl⟩ : ∃ f, fuel = f + 1 := ⟨fuel - 1, by simp [needDict] at hf; omega⟩
     rw [ObjParser.parseDictInner]
-    simp [serEntries, lib_next_dictEnd, readBackKVs]
+    simp [serEntries, lib_next_dictEnd, readBackLibKVs]
   | (k, v) :: kvs, rest, fuel, hs, hf => by
     obtain ⟨f, rfl⟩ : ∃ f, fuel = f + 1 := ⟨fuel - 1, by simp [needDict] at hf; omega⟩
     obtain ⟨f', rfl⟩ : ∃ f', f = f' + 1 := ⟨f - 1, by simp [needDict] at hf; omega⟩
@@ -351,19 +364,19 @@ theorem lib_entries_roundtrip : ∀ (kvs : List (List Nat × Obj)) (rest : List 
     have hname := lib_next_name k (32 :: (serRaw v ++ (serEntries kvs ++ 10 :: 62 :: 62 :: rest)))
       hs.1.1 (by simp [libEnds, Lexer.isBreak, Lexer.isAsciiWs])
     have hv : ObjParser.parseObj (f' + 1) (32 :: (serRaw v ++ (serEntries kvs ++ 10 :: 62 :: 62 :: rest)))
-        = .ok (readBack v, serEntries kvs ++ 10 :: 62 :: 62 :: rest) :=
+        = .ok (readBackLib v, serEntries kvs ++ 10 :: 62 :: 62 :: rest) :=
       parseObj_of_first f' _ t r1 _ (by rw [lib_next_ws 32 _ (by decide)]; exact hn) hp
     have e : serEntries ((k, v) :: kvs) ++ 10 :: 62 :: 62 :: rest
         = 10 :: (47 :: escapeName k ++ 32 :: (serRaw v ++ (serEntries kvs ++ 10 :: 62 :: 62 :: rest))) := by
       simp [serEntries]
     rw [e, ObjParser.parseDictInner, lib_next_ws 10 _ (by decide), hname]
-    simp [hv, ihl, readBackKVs]
+    simp [hv, ihl, readBackLibKVs]
 end
 
 /-- `PdfObject::parse` started on the written value -/
 theorem lib_parseObj_roundtrip (v : Obj) (rest : List Nat) (fuel : Nat)
     (hs : SafeLib v rest = true) (hf : needFT v + 1 ≤ fuel) :
-    ObjParser.parseObj fuel (serRaw v ++ rest) = .ok (readBack v, rest) := by
+    ObjParser.parseObj fuel (serRaw v ++ rest) = .ok (readBackLib v, rest) := by
   obtain ⟨f, rfl⟩ : ∃ f, fuel = f + 1 := ⟨fuel - 1, by omega⟩
   obtain ⟨t, r1, hn, _, _, hp⟩ := lib_first_roundtrip v rest f hs (by omega)
   exact parseObj_of_first f _ t r1 _ hn hp
